@@ -28,6 +28,18 @@ from typing import List
 from dataclasses import dataclass, field
 
 
+class StrictStrSeq(confuse.StrSeq):
+    """
+    A list of strings (or a whitespace-separated string). Unlike :class:`confuse.StrSeq`
+    a mapping is rejected instead of being silently replaced by the list of its keys.
+    """
+
+    def convert(self, value, view):
+        if isinstance(value, dict):
+            self.fail(u'must be a whitespace-separated string or a list', view, True)
+        return super().convert(value, view)
+
+
 def config_template(output_dir_relative_to_config: bool = False) -> dict:
     """
     Generates the config template.
@@ -67,7 +79,7 @@ def config_template(output_dir_relative_to_config: bool = False) -> dict:
             "file_extensions_in_titles": bool,
             "file_extensions_in_modules": bool,
             "module_path_separator": ".",
-            "headers": confuse.StrSeq(),
+            "headers": StrictStrSeq(),
             "prefix": confuse.Optional(confuse.String())
         }
 
